@@ -106,6 +106,32 @@ func run(e *core.Env) {
 	sessBC := B.State.GetSession(C.IP)
 	sessDA := D.State.GetSession(A.IP)
 
+	// The session may have a past: in a quarter of the runs A has already sent B regular
+	// traffic with numbers that reach to shortly below the 32-bit wrap (no wrap happens, so
+	// no key change is due). The frame under test must round-trip all the same.
+	if tp.Chance(1, 4) {
+		(&state.EncryptionSessionTestHelper{EncryptionSession: sessAB.Encryption()}).ReglSetOut(0xFFFF_FF00 - 20 + uint32(tp.Intn(150)))
+		for i, k := 0, 1+tp.Intn(30); i < k; i++ {
+			body := tp.Bytes(1 + tp.Intn(40))
+			f, err := A.Inst.Builder.NewFrameV1(A.IP, B.IP, frame.NetworkTraffic, nil, body, nil)
+			if err != nil {
+				e.Infra("prelude frame: %v", err)
+			}
+			if err := f.Seal(sessAB); err != nil {
+				e.Infra("prelude seal: %v", err)
+			}
+			d, _ := f.FrameDataWithMargins(0, 0)
+			w := append([]byte(nil), d...)
+			num := f.SequenceNum()
+			f.ReturnToPool()
+			got, err := unsealAt(B.Inst.Builder, sessBA, w)
+			if err != nil || !bytes.Equal(got, body) {
+				e.Fail("round-trip-fails/earlier-traffic-shortly-below-the-wrap", "regular frame number %d of earlier traffic A->B does not round-trip: %v", num, err)
+			}
+		}
+		e.Probe("session_with_earlier_traffic_shortly_below_the_wrap")
+	}
+
 	mt := msgTypes[tp.Intn(len(msgTypes))]
 	encrypted := mt.IsEncrypted()
 	authSize := 64
